@@ -196,6 +196,59 @@ def Fld.meta : Fld → FieldMeta
 def Fld.ty : Fld → Ty
   | .mk _ t => t
 
+/-- a field as declared: the arguments of `Field(...)` plus what the class body says about it -/
+structure RawField where
+  attname : String
+  alias : Option String
+  aliasFrom : List String
+  required : Option Req          -- `none` = not given
+  hasDefault : Bool              -- `default=` or `default_factory=` given
+  deferDefault : Bool
+  noInput : Flag
+  noOutput : Flag
+  mode : Option (List Char)
+  readonly : Bool
+  writeonly : Bool
+  final : Bool                   -- annotated `Final[...]`
+  isProp : Bool                  -- a getter-only `@property` (no explicit `Field`)
+  deps : List String
+  title : Option String
+  description : Option String
+  deprecated : Bool
+  exampleV : Option Json
+  deriving Repr, Inhabited
+
+def distinctAdd (acc : List String) : List String → List String
+  | [] => acc
+  | x :: xs => if acc.contains x then distinctAdd acc xs else distinctAdd (acc ++ [x]) xs
+
+/-- `Field.__init__` normalisation (field.py:100-154), `ParserField.generate` for getter-only properties
+(field.py:1198-1202), `get_alias` / `get_alias_from` (287-322) and `ParserField.__init__` (467-476) -/
+def normField (r : RawField) : FieldMeta :=
+  let name := r.alias.getD r.attname
+  let accepted := distinctAdd [r.attname] r.aliasFrom
+  let required : Req :=
+    if r.isProp then .never else
+    match r.required with
+    | some (.modes s) => .modes s
+    | some q => if r.hasDefault then .never else q
+    | none => if r.deprecated || r.hasDefault then .never else .always
+  { name := name
+    attname := r.attname
+    aliases := accepted.filter (· != name)
+    required := required
+    hasDefault := r.hasDefault
+    deferDefault := r.deferDefault
+    noInput := if r.isProp then .yes else r.noInput
+    noOutput := r.noOutput
+    mode := if r.readonly then some ['r'] else if r.writeonly then some ['w'] else r.mode
+    final := r.final
+    deps := r.deps
+    title := r.title
+    description := r.description
+    deprecated := r.deprecated
+    exampleV := r.exampleV }
+
 /-- the generator's configuration: `JsonSchemaGenerator(t, mode=genMode, output=output)` -/
 structure Cfg where
   output : Bool
@@ -712,7 +765,7 @@ def conforms (R : Rx) (t : Ty) (r : PV) : Bool :=
 termination_by structural t
 def conformsZip (R : Rx) (ts : List Ty) (xs : List PV) : Bool :=
   match ts with
-  | [] => xs.isEmpty
+  | [] => true            -- items beyond the declared ones are kept as they are (rule.py `_parse_tuple_args`)
   | t :: rest => (match xs with
     | [] => false
     | x :: xs' => conforms R t x && conformsZip R rest xs')
